@@ -154,12 +154,12 @@ AP = "resonaate.parallel.agent_propagation:"
                  TR + "TaskingRewardRegistration.processResults"], mode="Z", assumes=RAY,
             note="each job's result is written to its own registrant only (the listed attributes / calls, nothing else), and reward results fill exactly the row of their own target, so results of different jobs never interfere and any processing order gives the same state")
 def frames(vc):
-    a = Rec("A")
+    a = Rec("A", _detected_maneuvers=["detection-waiting-for-the-next-output"])  # (the worker's copy already carried it: the result list REPLACES the agent's)
     reg = vc.new(EU + "EstUpdateRegistration", _registrant=a)
     res = _NS(updated_filter="F", observed="OBS", iod_start_time="IOD", detected_maneuvers=["dm"])
     reg.processResults(res)
     vc.ensure("O-C08-frame.update", a._log == [("call", "_resetFilter", ("F",)), ("call", "_finalizeUpdate", ("OBS",)), ("set", "iod_start_time", "IOD"),
-                                               ("set", "_detected_maneuvers", ["dm"])])
+                                               ("set", "_detected_maneuvers", ["dm"])] and a._detected_maneuvers == ["dm"])
     b = Rec("B", nominal_filter="NF")
     applied = []
     reg = vc.new(EP + "EstPredictRegistration", _registrant=b)
